@@ -100,9 +100,9 @@ def call_range(I, anchor, objs, form=None, delimiter=None, parent=None):
 GIVEN_AS = ('strings', 'objects with id', 'objects with name', 'strings and objects mixed', 'tuple of strings')
 
 
-def given_as(ids, how):
+def given_as(ids, how, I=None):
     """the collection handed over: the identifiers themselves, objects that carry them as ``id``, objects without
-    ``id`` that carry them as ``name``, all three in one collection, a tuple"""
+    ``id`` that carry them as ``name``, all three in one collection, a tuple, a set (concrete identifiers only)"""
     def with_id(k, i):
         return Obj('o%d' % k, attrs={'id': i})
 
@@ -112,6 +112,8 @@ def given_as(ids, how):
         return o
     if how == 'strings':
         return ListV(list(ids))
+    if how == 'set of strings':
+        return make_set(I, list(ids))
     if how == 'tuple of strings':
         t = ListV(list(ids))
         t.is_tuple = True
@@ -210,12 +212,12 @@ def ranges_concrete(run, repo, anchor, thorough):
     for k, (label, delim, ids_) in enumerate(cases):
         # every way of handing the identifiers over for the lists that differ in kind, strings and one more in turn for
         # the others
-        hows = GIVEN_AS if label in ALL_WAYS else GIVEN_AS[:1] if '#' in label else \
+        hows = GIVEN_AS + ('set of strings',) if label in ALL_WAYS else GIVEN_AS[:1] if '#' in label else \
             (GIVEN_AS[0], GIVEN_AS[1 + k % 4])
         for how in hows:
             I = Interp(repo)
-            lst = call_range(I, anchor, given_as(ids_, how), 'list', delim)
-            st = call_range(I, anchor, given_as(ids_, how), None, delim)
+            lst = call_range(I, anchor, given_as(ids_, how, I), 'list', delim)
+            st = call_range(I, anchor, given_as(ids_, how, I), None, delim)
             n += 1
             tag = '%s, %s' % (label, how)
             if isinstance(lst, Raised) or isinstance(st, Raised):
@@ -434,7 +436,7 @@ def rejections(run, repo, anchor):
 
 CALLER_IDS = {
     # delimiter: (reaction ids, interaction ids): runs, a hole, two prefixes, a prefix containing another delimiter
-    '_': (['r_0001', 'r_0002', 'r_0004', 's_0010', 's_0011'], ['i_0001', 'i_0002', 'i_0004']),
+    '_': (['r_0001', 'r_0002', 'r_0004', 'a_b_0010', 'a_b_0011'], ['i_0001', 'i_0002', 'i_0004']),
     '-': (['rxn-0001', 'rxn-0002', 'rxn-0004', 'a_b-0004', 'a_b-0005'], ['lat-0001', 'lat-0002']),
     '.': (['rxn.0002', 'rxn.0004', 'rxn.0003', 's.0001'], ['lat.0007', 'lat.0005', 'lat.0006']),
 }
@@ -727,7 +729,9 @@ def wrapping(run, repo, anchor, thorough):
     limits = [(80, 80), (30, 30), (50, 80), (100, 100), (40, 60)]
     if thorough:
         widths_sets += [[w] * k for w in (7, 15, 26) for k in (3, 9, 20)]
-    cases = [(w_, l_, 'list') for w_, l_ in itertools.product(widths_sets, limits)]
+    # (thorough: every width pattern also with the first line wider than the others)
+    cases = [(w_, l_, 'list') for w_, l_ in itertools.product(
+        widths_sets, limits + ([(65, 64), (53, 52), (33, 31)] if thorough else []))]
     # token widths derived from the limits: tokens that just fit into the room of a line (the requested width less the
     # three columns of the quotes / of the indentation), alone on their line, and the first one that does not
     # ... under every relation of the two widths: equal, first line narrower, and first line wider by one to three
@@ -819,10 +823,17 @@ def check(run, repo):
         'base and concrete offsets, printed with a known width): 4 prefix shapes x 13 offset patterns (single, '
         'unsorted, gaps, duplicates, duplicates with holes) x 2 suffix widths x optional interleaved second prefix x '
         'ways of handing them over, each identifier spelled as it came; ids that are no strings (also None) and '
-        'suffixes that are no integers are rejected in both output forms. obj_to_cti is interpreted over concrete '
-        'token lists (quoted, hyphenated, punctuated, equal neighbours, tokens as long as the room of a line) and '
+        'suffixes that are no integers are rejected in both output forms; (c) through every writer that emits ranges '
+        '- IdealGas.to_cti (cantera and omkm), InteractingInterface.to_cti (reactions= and interactions=), BEP.to_cti '
+        'and BEP.to_omkm_yaml (both member lists), objects built by their constructors, members given as lists and as '
+        'tuples - with the default delimiter and with - and . : the field read back from the entry must denote '
+        'exactly the ids of the members. obj_to_cti is interpreted over concrete '
+        'token lists (quoted, hyphenated, punctuated, equal neighbours, tokens as long as the room of a line; given as '
+        'list, tuple, string and - distinct tokens - as a set) and '
         'over token lists with symbolic contents and concrete widths, including widths derived from the limits '
-        '(line_len-4, -3, -2): every token appears once, in order, only separators are added, and no line exceeds its '
+        '(line_len-4, -3, -2), under every relation of the two widths (equal, first line narrower, first line wider by '
+        'one to three columns as in the name= field of a phase), the arguments handed over by name, by position and '
+        'mixed: every token appears once, in order, only separators are added, and no line exceeds its '
         'limit unless it holds a single token that cannot fit. A branch on the characters of a symbolic identifier or '
         'token leaves the symbolic instance undecided (analysis error), it is never read as "not taken".')
     run.assumptions = ['more_itertools.consecutive_groups groups runs of +1 in the order given',
